@@ -106,7 +106,14 @@ def load_prop(prop_id: str) -> Prop:
     return mod.PROP
 
 
-def exec_case(facet: Facet, case: Any) -> Ctx:
+def _engine_errors() -> tuple:
+    import duckdb
+    import snowflake.connector.errors
+
+    return (snowflake.connector.errors.Error, duckdb.Error)
+
+
+def exec_case(facet: Facet, case: Any, prop_id: str = "") -> Ctx:
     ctx = Ctx()
     try:
         facet.run(case, ctx)
@@ -114,6 +121,18 @@ def exec_case(facet: Facet, case: Any) -> Ctx:
         ctx.fail(v.signature, v.detail)
     except Unsupported:
         ctx.rejected += 1
+    except _engine_errors() as e:
+        # A statement the facet runs unguarded (set-up, bookkeeping) because it always succeeds on the reference tree was refused by
+        # the code under test.  That is the tree's doing, not the harness': report it as a violation of the property being checked
+        # rather than as a harness error (Python-level errors of the harness itself still end the check with exit 2).
+        import traceback
+
+        tb = traceback.extract_tb(e.__traceback__)
+        here = next((f"{os.path.basename(fr.filename)}:{fr.lineno}" for fr in tb if "/vf/props/" in fr.filename), "?")
+        ctx.fail(
+            f"{prop_id or 'C??'}|unguarded-statement-raises|{type(e).__module__}.{type(e).__name__}|{facet.name}",
+            f"a statement the harness expects to succeed (at {here}) raised {type(e).__name__}: {str(e)[:400]}",
+        )
     except InvalidCase:
         # outside the facet's input domain: not executed, counted (a generator that does this often shows up in the evidence)
         ctx.violations.clear()
@@ -155,7 +174,7 @@ def run_shard(args: tuple) -> dict:
         if time.time() - t0 > budget:
             st["budget_exhausted"] = True
             return
-        ctx = exec_case(facet, case)
+        ctx = exec_case(facet, case, prop_id)
         if ctx.invalid:
             st["invalid"] = st.get("invalid", 0) + 1
             return
@@ -302,7 +321,7 @@ def shrink(facet: Facet, case: Any, signature: str, budget_s: float, max_evals: 
         nonlocal evals
         evals += 1
         try:
-            ctx = exec_case(facet, c)
+            ctx = exec_case(facet, c, signature.split("|")[0])
         except Exception:
             return None
         for sig, detail in ctx.violations:
@@ -389,7 +408,7 @@ def run_check(prop_id: str, tier: str) -> int:
             harness_errors.append(f"finding {e.get('signature')} names unknown facet {repro['facet']}")
             continue
         try:
-            ctx = exec_case(facet, repro["case"])
+            ctx = exec_case(facet, repro["case"], prop_id)
         except Exception:
             harness_errors.append(f"replay of finding {e.get('signature')} crashed:\n{traceback.format_exc()}")
             continue
@@ -535,7 +554,7 @@ def run_replay(prop_id: str, path: str) -> int:
         rep = json.load(f)
     facet = next(f for f in prop.facets if f.name == rep["facet"])
     known = findings.Known(prop_id)
-    ctx = exec_case(facet, rep["case"])
+    ctx = exec_case(facet, rep["case"], prop_id)
     if not ctx.violations:
         print(f"no violation: property={prop_id} replay={path}")
         return 0
